@@ -1,6 +1,6 @@
 From Coq Require Import ZArith List Bool Reals Lra.
 From Flocq Require Import Core BinarySingleNaN.
-Require Import GV.FloatBase GV.FloatLemmas GV.AngleM GV.AngleProofs GV.GeonumM GV.GeonumProofs GV.TraitsM GV.NewProofs GV.CtorProofs GV.PiBounds GV.TrigProofs GV.DotValue GV.DistValue GV.DirProofs GV.SymProofs GV.ClosureProofs GV.SwapProofs.
+Require Import GV.FloatBase GV.FloatLemmas GV.AngleM GV.AngleProofs GV.GeonumM GV.GeonumProofs GV.TraitsM GV.NewProofs GV.CtorProofs GV.PiBounds GV.TrigProofs GV.DotValue GV.DistValue GV.DirProofs GV.SymProofs GV.ClosureProofs GV.SwapProofs GV.TraitsProofs GV.BoundProofs GV.SumUpper GV.ProdProofs GV.FieldProofs GV.TanProofs.
 Open Scope R_scope.
 Require Import GV.Properties.C15.
 Check C15_cos_encoding : forall (L : libm) a, fin (cosF L (grade_angle a)) ->
@@ -40,3 +40,9 @@ Check C15_opp_value : forall (L : libm) (u : R) g, sin_acc L u -> u <= / 1000 ->
   Rabs (R_ (mag (opp L g)) - Rabs (R_ (mag g)) * Rabs (sin (dir (ang g))))
     <= Rabs (R_ (mag g)) * (u + 3 / 1000000000000000) + bpow radix2 (-1075).
 Print Assumptions C15_opp_value.
+Check C15_tan_value : forall (L : libm) (u : R) a, cos_acc L u -> sin_acc L u -> u <= / 1000000 -> canonp (rem a) ->
+  / 1000 <= Rabs (cos (dir a)) -> / 1000 <= Rabs (sin (dir a)) ->
+  forall t, gtan L a = Some t -> fin (mag t) ->
+  Rabs (R_ (mag t) - Rabs (sin (dir a)) / Rabs (cos (dir a)))
+    <= (2000 * (u + 25 / 10000000000000000) + 3 * / 4503599627370496) * (1 + / 25) * (Rabs (sin (dir a)) / Rabs (cos (dir a))).
+Print Assumptions C15_tan_value.
